@@ -98,6 +98,8 @@ def parts(tier):
         Part('histories', schedgen.histories(max_ops=40 if not T else 80, big=T, named_env=True), quick=170, thorough=800),
         Part('scattered_progress', schedgen.histories(max_ops=30 if not T else 60, big=T, scattered=True, app=False, light=True),
              quick=90, thorough=800),
+        Part('gpu_shares_blocked_gpus', schedgen.histories(max_ops=20 if not T else 40, big=T, scattered=True, app=False,
+                                                           light=True, gpu_focus=True), quick=40, thorough=300),
         Part('priority', prio_scenarios(), quick=120, thorough=500),
         Part('big_wait_pools', big_pools(), quick=50, thorough=400),
     ]
